@@ -440,8 +440,10 @@ be rendered with ONE byte, so `JMP START` was two bytes (`7E F0`) at `$F0` and t
 (`reloc_crossing_100` of the previous model).  With `fit_operand_width` the operand field of `JMP` has four hex
 digits wherever the program sits: `7E 00F0` / `7E 01F0`, the CODE moves as it should.  What still differs is the
 rendering of the address VALUE itself (one byte, DIRECT, below `$100`: the symbol table prints `$F0` against
-`$01F0`), and the value-level theorems speak of address values with the same hint and mode (`AddrShift`,
-`WideAddr`); this is why they still require every ORG at `$100` or above (`OrgBounds`, `OrgOk`). -/
+`$01F0`), and the value-level theorems `C18_R1_code`, `C18_R1_equ`, ... speak of address values with the same hint and
+mode (`AddrShift`, `WideAddr`); this is why THEY require every ORG at `$100` or above (`OrgBounds`, `OrgOk`).  The
+theorems `C18_R1_code_any`, `C18_R1_equ_any`, ... at the end of this file relate the address values at int level
+(`AddrShiftAny`, `IntAddr`) and hold at ANY origin; `reloc_crossing_100_witness` is a move across `$100`. -/
 theorem reloc_crossing_100_fixed :
     (∃ A, assemble [] (lines [" ORG $00F0\n", "START JMP START\n"]) = .ok A ∧ A.image = some [0x7E, 0x00, 0xF0] ∧
       symtabLines A.symtab = some [("$F0   START").toList]) ∧
@@ -993,5 +995,294 @@ theorem reloc_equ_witness : ∃ A B, assemble [] equA = .ok A ∧ assemble [] eq
         simp only [Option.bind_some, Option.map_some, Option.some.injEq] at hc
         rw [stage4_eq stA h4, stageT_eq stA hT]
         exact equCoverB_sound hc
+
+/-! ## any origin: moves across `$100` included
+
+The theorems `C18_R1_code`, `C18_R1_equ`, `C18_R1_code_mod`, `C18_R1_code_neg` above ask for every ORG at `$100` or above
+(`OrgOk`), for a purely technical reason: they relate the address VALUES of the two programs with the same hint and mode.
+The theorems below ask for nothing but what `C18_R1` asks (`ShiftOrgP D P la lb` with ANY side condition `P`; the line
+relation itself says `n + D < $10000`): addresses, label values and the origin are related as numbers (`AddrShiftAny`,
+`EquRelAny`), operand fields and emitted bytes exactly as above. -/
+
+theorem LineShift.any {D : Nat} {P : Nat → Prop} {x y : Str} (h : LineShift D P x y) :
+    LineShift D (OrgOkAny D) x y := by
+  rcases h with h | ⟨lab, n, hl, _, hx, hy, hn⟩
+  · exact .inl h
+  · exact .inr ⟨lab, n, hl, hn, hx, hy, hn⟩
+
+theorem ShiftOrgP.any {D : Nat} {P : Nat → Prop} {la lb : List Str} (h : ShiftOrgP D P la lb) :
+    ShiftOrgP D (OrgOkAny D) la lb :=
+  ⟨h.1, fun i x y hx hy => (h.2 i x y hx hy).any⟩
+
+/-- C18-R1, code and symbol table, for source text at ANY origin.  Conclusions as in `C18_R1_parsed_code_any`: the
+symbol tables before address assignment coincide; every statement address moves by `D` as a number inside the 64K space;
+statement by statement the operand field after `fix_addresses; fit_operand_width` and the emitted bytes are identical
+(`Unmoved`) or the 16-bit field moves by `D` (`Moved`); the final symbol tables are related entry by entry by
+`EquRelAny`. -/
+theorem C18_R1_code_any {fs : Files} {la lb : List Str} {D : Nat} {P : Nat → Prop} {A B : Assembly}
+    (hsh : ShiftOrgP D P la lb)
+    (hhead : ∃ lab n rest, lab.all isLabelCh = true ∧ n < 65536 ∧ la = orgLine lab n :: rest)
+    (stA : Stages fs la A) (stB : Stages fs lb B) :
+    stB.t = stA.t ∧ PW (AddrShiftAny D) stA.ss4 stB.ss4 ∧ PW (AddrShiftAny D) A.stmts B.stmts ∧
+    (∀ (i : Nat) (s4 t t' : Stmt), stA.ss4[i]? = some s4 → A.stmts[i]? = some t → B.stmts[i]? = some t' →
+      (Unmoved D stA.ss4 s4 → t'.pkg.additional = t.pkg.additional ∧ stmtBytes t' = stmtBytes t) ∧
+      (Moved D stA.ss4 s4 → t'.pkg.additional = shiftV D t.pkg.additional ∧
+        ∀ bs, stmtBytes t = some bs →
+          ∃ pre x, t.pkg.additional.int? = some x ∧ x + D < 65536 ∧ bs = pre ++ [x / 256, x % 256] ∧
+            stmtBytes t' = some (pre ++ [(x + D) / 256, (x + D) % 256]))) ∧
+    (∀ (j : Nat) (k : Str) (v : Value), stA.t[j]? = some (k, v) →
+      ∃ x x', A.symtab[j]? = some (k, x) ∧ B.symtab[j]? = some (k, x') ∧ EquRelAny D stA.ss4 stA.t v x x') := by
+  obtain ⟨lab, n, rest, hl, hn, hla⟩ := hhead
+  obtain ⟨hrel, hinc⟩ := parseLines_shift la lb _ _ hsh.any.pw stA.hparse stB.hparse
+  exact C18_R1_parsed_code_any stA.hparse stB.hparse hrel hinc (head_org hl hn hla stA.hparse) stA stB
+
+/-- C18-R1 for source text at any origin, the final symbol table entry by entry: conclusions as in
+`C18_R1_parsed_equ_any` -/
+theorem C18_R1_equ_any {fs : Files} {la lb : List Str} {D : Nat} {P : Nat → Prop} {A B : Assembly}
+    (hsh : ShiftOrgP D P la lb)
+    (hhead : ∃ lab n rest, lab.all isLabelCh = true ∧ n < 65536 ∧ la = orgLine lab n :: rest)
+    (stA : Stages fs la A) (stB : Stages fs lb B) :
+    ∀ (j : Nat) (k : Str) (v : Value), stA.t[j]? = some (k, v) →
+      ∃ x x', A.symtab[j]? = some (k, x) ∧ B.symtab[j]? = some (k, x') ∧ EquRelAny D stA.ss4 stA.t v x x' :=
+  (C18_R1_code_any hsh hhead stA stB).2.2.2.2
+
+/-- C18-R1 for source text at any origin, the third class (`MovedMod`): conclusions as in `C18_R1_code_mod` -/
+theorem C18_R1_code_mod_any {fs : Files} {la lb : List Str} {D : Nat} {P : Nat → Prop} {A B : Assembly}
+    (hsh : ShiftOrgP D P la lb)
+    (hhead : ∃ lab n rest, lab.all isLabelCh = true ∧ n < 65536 ∧ la = orgLine lab n :: rest)
+    (stA : Stages fs la A) (stB : Stages fs lb B) :
+    ∀ (i : Nat) (s4 t t' : Stmt), stA.ss4[i]? = some s4 → A.stmts[i]? = some t → B.stmts[i]? = some t' →
+      MovedMod D stA.ss4 s4 → t'.pkg.additional = shiftVmod D t.pkg.additional ∧
+        ∀ bs, stmtBytes t = some bs →
+          ∃ pre x, t.pkg.additional.int? = some x ∧ x < 65536 ∧ bs = pre ++ [x / 256, x % 256] ∧
+            stmtBytes t' = some (pre ++ [(x + D) % 65536 / 256, (x + D) % 65536 % 256]) := by
+  obtain ⟨lab, n, rest, hl, hn, hla⟩ := hhead
+  obtain ⟨hrel, hinc⟩ := parseLines_shift la lb _ _ hsh.any.pw stA.hparse stB.hparse
+  exact C18_R1_parsed_code_mod_any stA.hparse stB.hparse hrel hinc (head_org hl hn hla stA.hparse) stA stB
+
+/-- C18-R1 for source text at any origin, the fourth class (`MovedNeg`: `number - label`): conclusions as in
+`C18_R1_code_neg` -/
+theorem C18_R1_code_neg_any {fs : Files} {la lb : List Str} {D : Nat} {P : Nat → Prop} {A B : Assembly}
+    (hsh : ShiftOrgP D P la lb)
+    (hhead : ∃ lab n rest, lab.all isLabelCh = true ∧ n < 65536 ∧ la = orgLine lab n :: rest)
+    (stA : Stages fs la A) (stB : Stages fs lb B) :
+    ∀ (i : Nat) (s4 t t' : Stmt), stA.ss4[i]? = some s4 → A.stmts[i]? = some t → B.stmts[i]? = some t' →
+      MovedNeg stA.ss4 s4 → t'.pkg.additional = shiftVneg D t.pkg.additional ∧
+        ∀ bs, stmtBytes t = some bs →
+          ∃ pre x y, t.pkg.additional.int? = some x ∧ x < 65536 ∧ y < 65536 ∧ (y + D) % 65536 = x ∧
+            bs = pre ++ [x / 256, x % 256] ∧ stmtBytes t' = some (pre ++ [y / 256, y % 256]) := by
+  obtain ⟨lab, n, rest, hl, hn, hla⟩ := hhead
+  obtain ⟨hrel, hinc⟩ := parseLines_shift la lb _ _ hsh.any.pw stA.hparse stB.hparse
+  exact C18_R1_parsed_code_neg_any stA.hparse stB.hparse hrel hinc (head_org hl hn hla stA.hparse) stA stB
+
+/-! ### the classes at any origin, executable -/
+
+/-- `RefFitted`, executable -/
+def refFittedB (s : Stmt) : Bool := !s.operand.value.isAddress || !fitSkipped s.row
+
+theorem refFittedB_sound {s : Stmt} (h : refFittedB s = true) : RefFitted s := by
+  intro ha
+  unfold refFittedB at h
+  rw [ha] at h
+  simpa using h
+
+/-- every statement of the list is `Unmoved`, or `Moved` and `RefFitted` -/
+def coverAny2B (D : Nat) (as : List Stmt) : Bool :=
+  as.all (fun s => unmovedB D as s || (movedB D as s && refFittedB s))
+
+theorem coverAny2B_sound {D : Nat} {as : List Stmt} (h : coverAny2B D as = true) :
+    ∀ (i : Nat) (s : Stmt), as[i]? = some s → Unmoved D as s ∨ (Moved D as s ∧ RefFitted s) := by
+  intro i s hs
+  have := List.all_eq_true.mp h s (List.mem_of_getElem? hs)
+  simp only [Bool.or_eq_true, Bool.and_eq_true] at this
+  rcases this with h1 | ⟨h1, h2⟩
+  · exact .inl (unmovedB_sound h1)
+  · exact .inr ⟨movedB_sound h1, refFittedB_sound h2⟩
+
+/-- every statement of the list is in one of the four classes of a program at any origin (`CoveredAny`) -/
+def coverAnyB (D : Nat) (as : List Stmt) : Bool :=
+  as.all (fun s => unmovedB D as s || (movedB D as s && refFittedB s) || movedModB D as s || movedNegB as s)
+
+theorem coverAnyB_sound {D : Nat} {as : List Stmt} (h : coverAnyB D as = true) :
+    ∀ (i : Nat) (s : Stmt), as[i]? = some s → CoveredAny D as s := by
+  intro i s hs
+  have := List.all_eq_true.mp h s (List.mem_of_getElem? hs)
+  simp only [Bool.or_eq_true, Bool.and_eq_true] at this
+  rcases this with ((h1 | ⟨h1, h2⟩) | h1) | h1
+  · exact .inl (unmovedB_sound h1)
+  · exact .inr (.inl ⟨movedB_sound h1, refFittedB_sound h2⟩)
+  · exact .inr (.inr (.inl (movedModB_sound h1)))
+  · exact .inr (.inr (.inr (movedNegB_sound h1)))
+
+/-! ### witness: a move across `$100` -/
+
+/-- the body of the crossing sample: the label `L` referenced absolutely (`JMP L`, `LDX #L`, `LDA L,X`, `FDB L`),
+relatively (`BRA L`, `LEAX L,PCR`) and in an EQU (`T EQU L+1`) -/
+def crossBody : List Str :=
+  ["L JMP L\n", " LDX #L\n", " LDA L,X\n", " FDB L\n", " BRA L\n", " LEAX L,PCR\n", "T EQU L+1\n"].map String.toList
+
+/-- at `$00F8` the program itself straddles `$100` (`L` at `$F8`, the `FDB` at `$0102`); moved by `$100` all of it is
+above `$100` -/
+def crossA : List Str := orgLine [] 0x00F8 :: crossBody
+def crossB : List Str := orgLine [] 0x01F8 :: crossBody
+
+example : crossA = lines [" ORG $00F8\n", "L JMP L\n", " LDX #L\n", " LDA L,X\n", " FDB L\n", " BRA L\n",
+    " LEAX L,PCR\n", "T EQU L+1\n"] := by decide
+example : crossB = lines [" ORG $01F8\n", "L JMP L\n", " LDX #L\n", " LDA L,X\n", " FDB L\n", " BRA L\n",
+    " LEAX L,PCR\n", "T EQU L+1\n"] := by decide
+
+/-- the images, evaluated: `JMP L` (`7E 00F8` / `7E 01F8`), `LDX #L` (`8E 00F8` / `8E 01F8`), `LDA L,X`
+(`A6 89 00F8` / `A6 89 01F8`) and `FDB L` (`00F8` / `01F8`) move by `$100`; `BRA L` (`20 F2`) and `LEAX L,PCR`
+(`30 8C EF`) are identical -/
+def crossImageA : Bytes :=
+  [0x7E, 0x00, 0xF8, 0x8E, 0x00, 0xF8, 0xA6, 0x89, 0x00, 0xF8, 0x00, 0xF8, 0x20, 0xF2, 0x30, 0x8C, 0xEF]
+def crossImageB : Bytes :=
+  [0x7E, 0x01, 0xF8, 0x8E, 0x01, 0xF8, 0xA6, 0x89, 0x01, 0xF8, 0x01, 0xF8, 0x20, 0xF2, 0x30, 0x8C, 0xEF]
+
+/-- statement addresses (ORG, `L JMP`, `LDX`, `LDA`, `FDB`, `BRA`, `LEAX`, `T EQU`) and label values (`L`, `T`) -/
+def crossAddrsA : List (Option Nat) :=
+  [some 0xF8, some 0xF8, some 0xFB, some 0xFE, some 0x102, some 0x104, some 0x106, some 0x109]
+def crossAddrsB : List (Option Nat) :=
+  [some 0x1F8, some 0x1F8, some 0x1FB, some 0x1FE, some 0x202, some 0x204, some 0x206, some 0x209]
+
+set_option maxRecDepth 1000000 in
+theorem crossA_ok : checkProgram crossA (fun A => A.image == some crossImageA &&
+    symtabLines A.symtab == some (lines ["$F8   L", "$00F9 T"]) &&
+    A.symtab.map (fun kv => kv.2.int?) == [some 0xF8, some 0xF9] &&
+    A.stmts.map (fun s => s.pkg.address.int?) == crossAddrsA) = true := by decide
+set_option maxRecDepth 1000000 in
+theorem crossB_ok : checkProgram crossB (fun A => A.image == some crossImageB &&
+    symtabLines A.symtab == some (lines ["$01F8 L", "$01F9 T"]) &&
+    A.symtab.map (fun kv => kv.2.int?) == [some 0x1F8, some 0x1F9] &&
+    A.stmts.map (fun s => s.pkg.address.int?) == crossAddrsB) = true := by decide
+
+/-- the hypothesis of `C18_R1` / `C18_R1_code_any` (no side condition on the ORG value) -/
+theorem cross_shift : ShiftOrgP 0x100 (fun _ => True) crossA crossB :=
+  shiftOrgP_single [] 0x00F8 crossBody (by decide) trivial (by omega) (by decide)
+
+/-- the OLD side condition fails: the ORG is below `$100` -/
+theorem cross_not_orgOk : ¬ OrgOk 0x100 0x00F8 := by unfold OrgOk; omega
+
+set_option maxRecDepth 1000000 in
+/-- statement by statement (`unmovedB`, `movedB`, `refFittedB`): ORG, `BRA L`, `LEAX L,PCR` and the EQU are `Unmoved`;
+`JMP L`, `LDX #L`, `LDA L,X`, `FDB L` are `Moved` (and looked at by `fit_operand_width`) -/
+theorem crossA_classes :
+    (stage4 crossA).map (fun as => as.map (fun s => (unmovedB 0x100 as s, movedB 0x100 as s && refFittedB s)))
+      = some [(true, false), (false, true), (false, true), (false, true), (false, true), (true, false), (true, false),
+              (true, false)] := by decide
+
+set_option maxRecDepth 1000000 in
+theorem crossA_cover : (stage4 crossA).map (coverAny2B 0x100) = some true := by decide
+
+set_option maxRecDepth 1000000 in
+theorem crossA_equCover : (stage4 crossA).bind (fun as => (stageT crossA).map (equCoverB 0x100 as)) = some true := by
+  decide
+
+set_option maxRecDepth 1000000 in
+/-- the table entries: `L` is a label, `T EQU L+1` is an EQU defined by a label expression of the class `NumExpr` -/
+theorem crossA_equClasses :
+    (stage4 crossA).bind (fun as => (stageT crossA).map (fun t => t.map (fun kv =>
+      (kv.2.isAddress, equLabelB (numExprB 0x100 as) t kv.2))))
+      = some [(true, false), (false, true)] := by decide
+
+/-- a move across `$100` under the any-origin theorems.  The program at `$00F8` and at `$01F8`: both assemble to the
+images above — equal except the four absolute 16-bit fields, which are `$100` higher; the relative displacements
+(`BRA L`, `LEAX L,PCR`) are identical.  Statement addresses and label values move by `$100` as numbers (evaluated, and
+`PW (AddrShiftAny ..)` by `C18_R1_code_any`); the printed symbol table differs in FORMAT (`$F8` against `$01F8`: the
+listing prints a value below `$100` with two digits).  The hypotheses of `C18_R1_code_any` hold (`cross_shift`; the old
+`OrgOk` does not: `cross_not_orgOk`), EVERY statement that enters `fixAll` is `Unmoved` or `Moved` with `RefFitted`
+(evaluated; `stages_refFitted` proves `RefFitted` for every accepted program) and every table entry is covered, so `reloc_fixAll_any` / `reloc_finish_any` speak about the whole program; statement by
+statement operand field and code are identical (`Unmoved`) or the trailing 16-bit field moves by `$100` (`Moved`); entry
+by entry the final symbol tables are related by `EquRelAny` (`L`: `IntAddr`; `T EQU L+1`: `shiftV`). -/
+theorem reloc_crossing_100_witness : ∃ A B, assemble [] crossA = .ok A ∧ assemble [] crossB = .ok B ∧
+    A.image = some crossImageA ∧ B.image = some crossImageB ∧
+    symtabLines A.symtab = some (lines ["$F8   L", "$00F9 T"]) ∧
+    symtabLines B.symtab = some (lines ["$01F8 L", "$01F9 T"]) ∧
+    A.symtab.map (fun kv => kv.2.int?) = [some 0xF8, some 0xF9] ∧
+    B.symtab.map (fun kv => kv.2.int?) = [some 0x1F8, some 0x1F9] ∧
+    A.stmts.map (fun s => s.pkg.address.int?) = crossAddrsA ∧
+    B.stmts.map (fun s => s.pkg.address.int?) = crossAddrsB ∧
+    PW (AddrShiftAny 0x100) A.stmts B.stmts ∧
+    ∀ (stA : Stages [] crossA A),
+      (∀ (i : Nat) (s : Stmt), stA.ss4[i]? = some s → CoveredAny 0x100 stA.ss4 s) ∧
+      (∀ kv ∈ stA.t, EquCovered 0x100 stA.ss4 stA.t kv.2) ∧
+      (∀ (i : Nat) (s4 t t' : Stmt), stA.ss4[i]? = some s4 → A.stmts[i]? = some t → B.stmts[i]? = some t' →
+        (Unmoved 0x100 stA.ss4 s4 ∧ t'.pkg.additional = t.pkg.additional ∧ stmtBytes t' = stmtBytes t) ∨
+        (Moved 0x100 stA.ss4 s4 ∧ t'.pkg.additional = shiftV 0x100 t.pkg.additional ∧
+          ∀ bs, stmtBytes t = some bs →
+            ∃ pre x, t.pkg.additional.int? = some x ∧ x + 0x100 < 65536 ∧ bs = pre ++ [x / 256, x % 256] ∧
+              stmtBytes t' = some (pre ++ [(x + 0x100) / 256, (x + 0x100) % 256]))) ∧
+      ∀ (j : Nat) (k : Str) (v : Value), stA.t[j]? = some (k, v) →
+        ∃ x x', A.symtab[j]? = some (k, x) ∧ B.symtab[j]? = some (k, x') ∧ EquRelAny 0x100 stA.ss4 stA.t v x x' := by
+  obtain ⟨A, hA, cA⟩ := checkProgram_sound crossA_ok []
+  obtain ⟨B, hB, cB⟩ := checkProgram_sound crossB_ok []
+  simp only [Bool.and_eq_true, beq_iff_eq] at cA cB
+  obtain ⟨⟨⟨a1, a2⟩, a3⟩, a4⟩ := cA
+  obtain ⟨⟨⟨b1, b2⟩, b3⟩, b4⟩ := cB
+  obtain ⟨stB⟩ := assemble_stages hB
+  obtain ⟨stA0⟩ := assemble_stages hA
+  have hhd : ∃ lab n rest, lab.all isLabelCh = true ∧ n < 65536 ∧ crossA = orgLine lab n :: rest :=
+    ⟨[], 0x00F8, crossBody, by decide, by omega, rfl⟩
+  have hcov : ∀ (stA : Stages [] crossA A) (i : Nat) (s : Stmt), stA.ss4[i]? = some s →
+      Unmoved 0x100 stA.ss4 s ∨ (Moved 0x100 stA.ss4 s ∧ RefFitted s) := by
+    intro stA
+    have hc := crossA_cover
+    cases h4 : stage4 crossA with
+    | none => rw [h4] at hc; cases hc
+    | some x =>
+      rw [h4] at hc
+      simp only [Option.map_some, Option.some.injEq] at hc
+      rw [stage4_eq stA h4]
+      exact coverAny2B_sound hc
+  refine ⟨A, B, hA, hB, a1, b1, a2, b2, a3, b3, a4, b4, (C18_R1_code_any cross_shift hhd stA0 stB).2.2.1, ?_⟩
+  intro stA
+  refine ⟨?_, ?_, ?_, C18_R1_equ_any cross_shift hhd stA stB⟩
+  · intro i s hs
+    rcases hcov stA i s hs with hc | hc
+    · exact .inl hc
+    · exact .inr (.inl hc)
+  · have hc := crossA_equCover
+    cases h4 : stage4 crossA with
+    | none => rw [h4] at hc; cases hc
+    | some x =>
+      cases hT : stageT crossA with
+      | none => rw [h4, hT] at hc; cases hc
+      | some tt =>
+        rw [h4, hT] at hc
+        simp only [Option.bind_some, Option.map_some, Option.some.injEq] at hc
+        rw [stage4_eq stA h4, stageT_eq stA hT]
+        exact equCoverB_sound hc
+  · intro i s4 t t' hs4 ht ht'
+    obtain ⟨hu, hm⟩ := (C18_R1_code_any cross_shift hhd stA stB).2.2.2.1 i s4 t t' hs4 ht ht'
+    rcases hcov stA i s4 hs4 with hc | ⟨hc, _⟩
+    · exact .inl ⟨hc, hu hc⟩
+    · exact .inr ⟨hc, hm hc⟩
+
+/-! ## axioms (the any-origin theorems) -/
+
+#print axioms CoCo.Asm.assignAddrs_reloc_any
+#print axioms CoCo.Asm.fixFit_moved_any_aux
+#print axioms CoCo.Asm.symtab_reloc_entry_any
+#print axioms reloc_assign_rel_any
+#print axioms reloc_assign_iff_any
+#print axioms reloc_fixFit_unmoved_any
+#print axioms reloc_fixFit_moved_any
+#print axioms reloc_bytes_unmoved_any
+#print axioms reloc_bytes_moved_any
+#print axioms reloc_bytes_movedMod_any
+#print axioms reloc_bytes_movedNeg_any
+#print axioms reloc_fixAll_any
+#print axioms reloc_finish_any
+#print axioms C18_R1_parsed_code_any
+#print axioms C18_R1_parsed_equ_any
+#print axioms C18_R1_parsed_code_mod_any
+#print axioms C18_R1_parsed_code_neg_any
+#print axioms C18_R1_code_any
+#print axioms C18_R1_equ_any
+#print axioms C18_R1_code_mod_any
+#print axioms C18_R1_code_neg_any
+#print axioms stages_refFitted
+#print axioms coveredAny_of_stages
+#print axioms reloc_crossing_100_witness
 
 end CoCo.Props
